@@ -138,11 +138,11 @@ var propSpecs = []propSpec{
 	{
 		id: "C11",
 		runs: []runSpec{
-			{dir: "mux", entry: "ZZC11", quick: []int{10001, 10101, 10203, 10303, 11001, 11101, 11203, 11303, 12001, 12101, 12203, 12303, 13001, 13101, 13203, 13303, 14001, 14101, 14203, 14303, 15001, 16001, 12403, 13403},
-				thorough: []int{10002, 10102, 10205, 10305, 11002, 11102, 11205, 11305, 12002, 12102, 12205, 12305, 13002, 13102, 13205, 13305, 14002, 14102, 14205, 14305, 15002, 16002, 12405, 13405}},
+			{dir: "mux", entry: "ZZC11", quick: []int{10001, 10101, 10203, 10303, 11001, 11101, 11203, 11303, 12001, 12101, 12203, 12303, 13001, 13101, 13203, 13303, 14001, 14101, 14203, 14303, 15001, 16001, 17001, 18001, 12403, 13403},
+				thorough: []int{10002, 10102, 10205, 10305, 11002, 11102, 11205, 11305, 12002, 12102, 12205, 12305, 13002, 13102, 13205, 13305, 14002, 14102, 14205, 14305, 15002, 16002, 17002, 18002, 12405, 13405}},
 		},
 		covers:  []string{"deny", "404-405", "preflight-unserved-method", "preflight-disallowed-header"},
-		bounds:  "WithCORS with 5 origin lists x 4 allow-header lists (and a mixed-case two-name list on two origin lists), plus WithAllowedCORS and WithDenyCORS, x 3 (exposed, credentials, max-age) settings with max-age a symbolic int in [1,99999]; requests: GET/HEAD/POST/OPTIONS/empty method on a live route, OPTIONS *, an unknown path; Origin absent or every string of <= 2 bytes (so it can equal a configured origin); Access-Control-Request-Method absent / GET / PUT / every string of <= 3 bytes; Access-Control-Request-Headers absent, 4 fixed spellings (lower case, lists, mixed case with spaces) and every string of <= 3 visible-ASCII/HTAB bytes (<= 1 for the configurations without an allow-list); reference: own list parser (split on ',', trim OWS, ASCII case-insensitive)",
+		bounds:  "WithCORS with 5 origin lists x 4 allow-header lists (and a mixed-case two-name list on two origin lists), plus WithAllowedCORS, WithDenyCORS and two option sequences in which a later CORS option overrides an earlier one, x 3 (exposed, credentials, max-age) settings with max-age a symbolic int in [1,99999]; requests: GET/HEAD/POST/OPTIONS/empty method on a live route, GET and OPTIONS on a route registered on \"/\", OPTIONS *, an unknown path; Origin absent or every string of <= 2 bytes (so it can equal a configured origin); Access-Control-Request-Method absent / GET / PUT / every string of <= 3 bytes; Access-Control-Request-Headers absent, 4 fixed spellings (lower case, lists, mixed case with spaces) and every string of <= 3 visible-ASCII/HTAB bytes (<= 1 for the configurations without an allow-list); reference: own list parser (split on ',', trim OWS, ASCII case-insensitive)",
 		boundsT: "free Access-Control-Request-Headers <= 5 bytes",
 		outside: "header values with bytes outside visible ASCII / HTAB; longer free header values; origins longer than 2 bytes",
 		stubs:   append(append([]string{}, stdStubs...), "strings.TrimSpace: byte-wise model exact for ASCII; strconv.Itoa on the symbolic max-age: digit-wise model"),
@@ -150,8 +150,8 @@ var propSpecs = []propSpec{
 	{
 		id: "C12",
 		runs: []runSpec{
-			{dir: "mux", entry: "ZZC11", quick: []int{21001, 21101, 21203, 21303, 22001, 22101, 22203, 22303, 23001, 23101, 23203, 23303, 24001, 24101, 24203, 24303, 25001, 22403, 23403},
-				thorough: []int{21002, 21102, 21205, 21305, 22002, 22102, 22205, 22305, 23002, 23102, 23205, 23305, 24002, 24102, 24205, 24305, 25002, 22405, 23405}},
+			{dir: "mux", entry: "ZZC11", quick: []int{21001, 21101, 21203, 21303, 22001, 22101, 22203, 22303, 23001, 23101, 23203, 23303, 24001, 24101, 24203, 24303, 25001, 28001, 22403, 23403},
+				thorough: []int{21002, 21102, 21205, 21305, 22002, 22102, 22205, 22305, 23002, 23102, 23205, 23305, 24002, 24102, 24205, 24305, 25002, 28002, 22405, 23405}},
 		},
 		covers:  []string{"grant", "preflight-grant", "not-a-preflight"},
 		bounds:  "as C11 restricted to the 4 non-empty origin lists; asserted: Allow-Origin/Credentials/Expose-Headers exactly as configured for allowed origins, Allow-Methods = the route's Allow set, Allow-Headers and Max-Age (symbolic int, compared through strconv.Itoa) on accepted preflights only, Vary naming Origin / Access-Control-Request-Method / Access-Control-Request-Headers",
@@ -173,10 +173,10 @@ var propSpecs = []propSpec{
 	{
 		id: "C14",
 		runs: []runSpec{
-			{dir: "mux", entry: "ZZC14", quick: []int{106, 205, 1105, 1205, 2204}, thorough: []int{306, 1306, 2305}},
+			{dir: "mux", entry: "ZZC14", quick: []int{106, 205, 1105, 1205, 2204, 3205}, thorough: []int{306, 1306, 2305, 3306}},
 		},
 		covers:  []string{"host-history", "host-accepted", "host-rejected", "host-params"},
-		bounds:  "3 operation alphabets of 4-9 operations (Add/Delete of literal and parameterised domains in mixed case, Delete of an unknown domain, a 6-literal bundle plus a wildcard domain, RegisterInterceptor + interceptor domain, an IPv6 literal, two domains sharing a first byte under an indexed root that are deleted one after the other), every history of <= 2 operations; Host = every ASCII string of <= 5 bytes (<= 6 after single operations, <= 4 for the third alphabet) (case, ':port', brackets, invalid ports all included); reference: own normaliser + the C02 reference resolver over the lower-cased live domain set, parameters compared",
+		bounds:  "4 operation alphabets of 4-9 operations (Add/Delete of literal and parameterised domains in mixed case, Delete of an unknown domain, a 6-literal bundle plus a wildcard domain, RegisterInterceptor + interceptor domain, an IPv6 literal, two domains sharing a first byte under an indexed root that are deleted one after the other), every history of <= 2 operations; Host = every ASCII string of <= 5 bytes (<= 6 after single operations, <= 4 for the third alphabet) (case, ':port', brackets, invalid ports all included); reference: own normaliser + the C02 reference resolver over the lower-cased live domain set, parameters compared",
 		boundsT: "histories of <= 3 operations, Host <= 6 bytes",
 		outside: "Host bytes >= 0x80 (Unicode case folding); longer hosts; the empty host and \"*\"",
 		stubs:   append(append([]string{}, stdStubs...), "strings.ToLower: exact for ASCII"),
@@ -236,7 +236,7 @@ var propSpecs = []propSpec{
 			{dir: "types", entry: "ZZC20Float", quick: []int{0}, thorough: []int{0}},
 		},
 		covers:  []string{"sequence", "pool-reuse", "absent-key", "present-key", "conversion", "int-ok", "bool-ok", "float"},
-		bounds:  "every sequence of <= 3 operations from {Set, Delete, Reset, Destroy+NewContext, Params().Set} with keys from {a, b, any 1-byte string} and values of <= 2 arbitrary bytes, then Count/Get/Exists/String/MustString/Range and the typed accessors for an arbitrary probe key against a shadow association list; Int/Uint/Bool and their Must* variants against strconv executed symbolically from its own SSA on every string of <= 4 bytes plus 27 edge-case seeds (overflow boundaries, signs, underscores, hex, NaN/Inf); Float/MustFloat against strconv.ParseFloat on the 27 seeds",
+		bounds:  "every sequence of <= 3 operations from {Set, Delete, Reset, Destroy+NewContext, Params().Set, Destroy + a late write by the old holder + NewContext} with keys from {a, b, any 1-byte string} and values of <= 2 arbitrary bytes, then Count/Get/Exists/String/MustString/Range and the typed accessors for an arbitrary probe key against a shadow association list; Int/Uint/Bool and their Must* variants against strconv executed symbolically from its own SSA on every string of <= 4 bytes plus 27 edge-case seeds (overflow boundaries, signs, underscores, hex, NaN/Inf); Float/MustFloat against strconv.ParseFloat on the 27 seeds",
 		boundsT: "sequences of <= 4 operations, conversion strings <= 6 bytes",
 		outside: "Float on arbitrary strings (strconv.ParseFloat is only run natively on concrete seeds); longer values",
 		assume:  []string{"sync.Pool returns the most recently released context (the case the 'starts empty' clause is about)"},
@@ -245,11 +245,11 @@ var propSpecs = []propSpec{
 	{
 		id: "C06",
 		runs: []runSpec{
-			{dir: "mux", entry: "ZZC06", quick: []int{0,1,2,3,4,5,10,11,12,13,14,15,20,21,22,23,24,25,30,31,32,33,34,35,40,41,42,43,44,45,50,51,52,53,54,55,1000,1002,1020,1022,1030,1032}, thorough: []int{0,1,2,3,4,5,10,11,12,13,14,15,20,21,22,23,24,25,30,31,32,33,34,35,40,41,42,43,44,45,50,51,52,53,54,55,1000,1002,1020,1022,1030,1032,100,101,102,110,111,112,130,131,132}},
+			{dir: "mux", entry: "ZZC06", quick: []int{0,1,2,3,4,5,10,11,12,13,14,15,20,21,22,23,24,25,30,31,32,33,34,35,40,41,42,43,44,45,50,51,52,53,54,55,1000,1002,1020,1022,1030,1032,16709,17609,13609,16309,12709,18909,60,62,65,70,72,75}, thorough: []int{0,1,2,3,4,5,10,11,12,13,14,15,20,21,22,23,24,25,30,31,32,33,34,35,40,41,42,43,44,45,50,51,52,53,54,55,1000,1002,1020,1022,1030,1032,100,101,102,110,111,112,130,131,132,16709,17609,13609,16309,12709,18909,60,62,65,70,72,75,16700,18900}},
 		},
 		covers:  []string{"interleaving"},
 		race:    true,
-		bounds:  "router created with WithLock(true) holding 3 routes; 2 logical threads: one writer (Handle that splits an untouched route's node, Handle of a method on the toggled route, Remove, Remove+Handle toggle, Clean, a Handle rejected as ambiguous) x one reader (ServeHTTP of the toggled route with GET and POST, of an untouched literal route, of an untouched parameter route, Routes(), strict URL), all 36 pairs; 6 two-request readers; the schedule is a symbolic choice at every lock operation and every schedule at that granularity is explored; a happens-before monitor (vector clocks over lock/unlock, pool put/get, thread start/join) checks every heap access of the interpreted code; each response must be one a sequential router could produce",
+		bounds:  "router created with WithLock(true) holding 3 routes; 2 logical threads: one writer (Handle that splits an untouched route's node, Handle of a method on the toggled route, Remove, Remove+Handle toggle, Clean, a Handle rejected as ambiguous) x one reader (ServeHTTP of the toggled route with GET and POST, of an untouched literal route, of an untouched parameter route, Routes(), strict URL), all 36 pairs plus the writers Remove(GET) and Remove+Handle(POST) with three readers; 6 two-request readers; 6 pairs of writers without a reader whose final table must be the result of some serial order of their operations (incl. two registrations through different Prefix objects that share a caller-owned middleware slice); deadlocks (sync.RWMutex with writer preference: a waiting Lock blocks new readers) are reported; the schedule is a symbolic choice at every lock operation and every schedule at that granularity is explored; a happens-before monitor (vector clocks over lock/unlock, pool put/get, thread start/join) checks every heap access of the interpreted code; each response must be one a sequential router could produce",
 		boundsT: "as quick plus 9 scenarios with 3 threads (two writers and a reader)",
 		outside: "more threads or operations per thread; preemption inside a critical section is covered by the race monitor, not by the functional clause; Router.Use concurrent with anything; user code that reads Node().Methods()/AllowHeader() of a route while that route's methods are being changed; weak-memory effects beyond the Go memory model's definition of a data race",
 		assume:  []string{"sync.RWMutex and sync.Pool behave as the Go memory model documents (engine models)"},
@@ -262,11 +262,11 @@ var propSpecs = []propSpec{
 			{dir: "mux", entry: "ZZC07Pool", quick: []int{5}, thorough: []int{7}},
 			{dir: "mux", entry: "ZZC07Nested", quick: []int{2}, thorough: []int{3}},
 			{dir: "mux", entry: "ZZC07Wide", quick: []int{2}, thorough: []int{3}},
-			{dir: "mux", entry: "ZZC07Par", quick: []int{0, 1, 2, 10, 12}, thorough: []int{0, 1, 2, 10, 12}},
+			{dir: "mux", entry: "ZZC07Par", quick: []int{0, 1, 2, 3, 10, 12}, thorough: []int{0, 1, 2, 3, 10, 12}},
 		},
-		covers:  []string{"foreign-activity", "pooled-request-served", "nested-request", "after-a-wide-request", "par-two-routers", "par-router-and-hosts", "par-build-and-serve", "par-requests"},
+		covers:  []string{"foreign-activity", "pooled-request-served", "nested-request", "after-a-wide-request", "par-two-routers", "par-router-and-hosts", "par-build-and-serve", "par-shared-options", "par-requests"},
 		race:    true,
-		bounds:  "sequential: a brand-new router (with/without WithTrace) is observed (OPTIONS * Allow, a 404, Routes(), Allow after one registration) before and after (and against the documented answers after) every sequence of <= 2 operations from 10 on other routers, a Hosts matcher and a Group; pooled contexts: two consecutive requests with symbolic paths <= 5 bytes on the backtracking table, optionally after a Group served (its own release path), and a handler that serves a nested request while its own is in flight; a request that captures 30-32 parameters (around the pool's release threshold) followed by an ordinary one; the engine also reports a pooled object that is released twice; concurrent (logical threads + happens-before monitor over every heap access): two routers registering/removing in parallel, a router and a Hosts matcher, one router being built and cleaned while another serves, two parallel requests with symbolic parameter values on one quiescent router with and without WithLock",
+		bounds:  "sequential: a brand-new router (with/without WithTrace) is observed (OPTIONS * Allow, a 404, Routes(), Allow after one registration) before and after (and against the documented answers after) every sequence of <= 2 operations from 10 on other routers, a Hosts matcher and a Group; pooled contexts: two consecutive requests with symbolic paths <= 5 bytes on the backtracking table, optionally after a Group served (its own release path), and a handler that serves a nested request while its own is in flight; a request that captures 30-32 parameters (around the pool's release threshold) followed by an ordinary one; the engine also reports a pooled object that is released twice; concurrent (logical threads + happens-before monitor over every heap access): two routers registering/removing in parallel, a router and a Hosts matcher, one router being built and cleaned while another serves, a router built from the same Option values as one that is serving, two parallel requests with symbolic parameter values on one quiescent router with and without WithLock",
 		boundsT: "foreign sequences of <= 3 operations, pooled paths <= 8 bytes",
 		outside: "more than two concurrent requests; Groups used concurrently; weak-memory effects beyond the Go memory model's race definition",
 		assume:  []string{"sync.Pool hands a released context to the next request (single-goroutine runtime behaviour between GCs)"},
